@@ -33,6 +33,8 @@ Proof.
     induction l as [|x l IH]; intros s2; [reflexivity|]. cbn [fold_right run]. apply IH.
   - destruct (sget s (RD k)); [reflexivity|]. destruct (run o (bop_prog fx nd a b c d (BDDCreate k byRef)) _); reflexivity.
   - destruct (flget s (RF_bel k)); [reflexivity|]. destruct (run o (bop_prog fx nd a b c d (BDDFree k)) _); reflexivity.
+  - destruct (sget s R_dctx); [|reflexivity]. destruct (run o (bop_prog fx nd a b c d (BLoad byRef sz)) _); reflexivity.
+  - destruct (sget s R_dctx); [|reflexivity]. destruct (run o (bop_prog fx nd a b c d (BStream n sz)) _); reflexivity.
 Qed.
 
 (* histories: any operation on the DCtx, the DDicts 0 and 1 (created by copy or by reference); the observation-driven variant of
@@ -52,8 +54,8 @@ Proof. intros k H. apply N.ltb_lt in H. lia. Qed.
 
 Lemma borrow_closed : forall a b c d op, bok op = true -> closedSF FB St_borrow aerr_iff_fail (bcl a b c d op) = true.
 Proof.
-  intros a b c d op H. destruct op; cbn in H; try discriminate;
-    try (destruct (lt2 _ H); subst k); try destruct byRef; run_analysisB.
+  intros a b c d op H. destruct op as [| |k|k n| | | |k byRef|k|byRef sz|n sz]; cbn in H; try discriminate;
+    try (destruct (lt2 _ H); subst k); try destruct byRef; try (destruct n as [|[p|p|]]); run_analysisB.
 Qed.
 Lemma borrow_teardown : forall a b c d, all_res aclean (aexecS FB true (btd a b c d) St_borrow) = true.
 Proof. intros. run_analysisB. Qed.
@@ -83,7 +85,8 @@ Definition astatus_okB (a : astate) : bool := astatus a.
 Lemma borrow_not_dang : forallb (fun a => match aget a R_dctx with ADang => false | _ => true end) St_borrow = true.
 Proof. run_analysisB. Qed.
 Definition ref_then_decode (a b c d k : N) : prog :=
-  Seq (bcl a b c d (BDDCreate k false)) (Seq Forget (Seq (bcl a b c d (BRef k)) (Seq (bcl a b c d BDecomp) (IfFlag (RF_bel k) Skip (Return false))))).
+  Seq (bcl a b c d (BDDCreate k false)) (Seq Forget (Seq (bcl a b c d (BRef k)) (Seq (bcl a b c d BDecomp) (Seq (bcl a b c d (BStream 0 0))
+    (IfFlag (RF_bel k) Skip (Return false)))))).
 Lemma borrow_recover : forall a b c d k, (k <? 2) = true -> all_res astatus_okB (aexecS FB false (ref_then_decode a b c d k)
    (filter (fun x => match aget x R_dctx with AOwn => true | _ => false end) St_borrow)) = true.
 Proof. intros a b c d k H. destruct (lt2 _ H); subst k; run_analysisB. Qed.
@@ -134,3 +137,5 @@ Lemma zbuffv04_unchecked_refuted_l :
   (exists e, snd (fst (run_l v04_as_found [LCreate; LStream 10 20] [3%nat] [true; false; false])) = e /\ In (EUseDead X_zd) e)
   /\ run_l repaired [LCreate; LStream 10 20] [3%nat] [true; false; false] = ([], [], true).
 Proof. split; [eexists; split; [vm_compute; reflexivity|cbn; auto]|vm_compute; reflexivity]. Qed.
+
+Definition borrow_states : nat := Eval vm_compute in length St_borrow.
